@@ -7,10 +7,12 @@ Part C: complete finite checks over the table GENERATED from the current tree (`
         the real built tables equal `buildTables Gen.opSpecs` cell by cell; no state-touching op allows signature mode; …
 Part D: the two combined: what a `pass` verdict of the model guarantees for today's table.
 
-Not covered here (statement kept visible, no proof): `CheckEvalAgreeStatement` (branch-target alignment, needs the
-interpreter skeleton Model.AVM of C31).
+Part B': the static check loop (Model.OpCheck): every branch target admitted by an accepting check is an instruction start
+        (`check_targets_aligned`, all programs, all row lists). The eval side of `CheckEvalAgreeStatement` (eval only moves
+        to pc + width or to such a target) is NOT proved; it is a monitor on the real evaluator in the harness.
 -/
 import AlgoVerif.Model.OpTables
+import AlgoVerif.Model.OpCheck
 import AlgoVerif.Lemmas.OpTables
 import AlgoVerif.Gen.OpTable
 namespace Props.C34
@@ -409,9 +411,10 @@ theorem step_pass_sound (rows : List Spec) (groups : List Group) (lv minv mode v
   · exfalso
     cases e <;> simp at h he <;> first | exact he h | (subst h; exact he rfl) | contradiction
 
-/-- statement only (not proved here): static check and evaluation agree on instruction boundaries and branch targets.
-    `starts` are the instruction starts recorded by `check`, `reached` the pcs visited by `eval`, `targets` the branch
-    targets taken. It needs the interpreter skeleton (Model.AVM, C31) and is outside this check. -/
+/-- full statement: static check and evaluation agree on instruction boundaries and branch targets. `starts` are the
+    instruction starts recorded by `check`, `reached` the pcs visited by `eval`, `targets` the branch targets admitted.
+    The second conjunct is proved for the model of check (`check_targets_aligned`, Part B'); the first (about eval) needs the
+    interpreter skeleton (Model.AVM, C31) and is only monitored on the real evaluator. -/
 def CheckEvalAgreeStatement (starts reached targets : List Nat) (len : Nat) : Prop :=
   (∀ pc ∈ reached, pc ∈ starts ∨ pc = len) ∧ (∀ t ∈ targets, t ∈ starts ∨ t = len)
 
@@ -446,6 +449,148 @@ example : fieldGate demoGroup 7 modeSig 2 = .fieldmode := by decide
 example : fieldGate demoGroup 7 modeApp 1 = .badfield := by decide
 example : fieldGate demoGroup 7 modeApp 3 = .badfield := by decide
 example : FieldOk demoGroup 7 modeApp 2 := (field_gate_pass_iff _ _ _ _).mp (by decide)
+
+/-! ## Part B' — static check: branch targets are instruction starts (model of check / checkStep) -/
+
+section StaticCheck
+open Model.OpCheck
+
+theorem admitAll_ok {v pc w len : Nat} {two : Bool} {starts : List Nat} :
+    ∀ {ts : List Int} {out : List Nat}, admitAll v pc w len two starts ts = .ok out →
+      ∀ t ∈ out, (t ∈ starts ∨ pc + w ≤ t) ∧ t ≤ len := by
+  intro ts
+  induction ts with
+  | nil => intro out h t ht; simp [admitAll] at h; subst h; cases ht
+  | cons x rest ih =>
+    intro out h t ht
+    unfold admitAll at h
+    split at h
+    · cases h
+    · rename_i hrange
+      simp only [] at h
+      split at h
+      · cases h
+      · rename_i hback
+        cases hr : admitAll v pc w len two starts rest with
+        | error e => rw [hr] at h; cases h
+        | ok ts' =>
+          rw [hr] at h
+          simp only [Except.ok.injEq] at h
+          subst h
+          rcases List.mem_cons.mp ht with rfl | ht'
+          · constructor
+            · by_cases hlt : x.toNat < pc + w
+              · left
+                have : ¬ ¬ (starts.contains x.toNat = true) := fun hn => hback ⟨hlt, hn⟩
+                have := Decidable.not_not.mp this
+                exact List.contains_iff_mem.mp this
+              · right; omega
+            · omega
+          · exact ih hr t ht'
+
+theorem decodeInstr_ok {tbl : Nat → Table} {v mode : Nat} {prog : List Nat} {pc : Nat} {starts : List Nat} {w : Nat}
+    {ts : List Nat} (h : decodeInstr tbl v mode prog pc starts = .ok (w, ts)) :
+    ∀ t ∈ ts, (t ∈ starts ∨ pc + w ≤ t) ∧ t ≤ prog.length := by
+  unfold decodeInstr at h
+  split at h
+  · cases h
+  · split at h
+    · cases h
+    · split at h
+      · cases h
+      · split at h
+        · cases h
+        · split at h
+          · cases h
+          · rename_i w' ts' two hraw
+            split at h
+            · cases h
+            · rename_i out hadm
+              simp only [Except.ok.injEq, Prod.mk.injEq] at h
+              obtain ⟨h1, h2⟩ := h
+              subst h1; subst h2
+              exact admitAll_ok hadm
+
+/-- FULL for the model of `check`. If the static check accepts, every branch target it admitted — forward or backward,
+    2-byte, varint, switch/match label — is an instruction start it recorded, or the end of the program. Widths are
+    `Size` (or the dynamically decoded width), so the second byte of a prefix+sub-opcode instruction is interior. -/
+theorem checkLoop_aligned (dec : Nat → List Nat → Except CheckRes (Nat × List Nat)) (len : Nat)
+    (hdec : ∀ pc starts w ts, dec pc starts = .ok (w, ts) → ∀ t ∈ ts, (t ∈ starts ∨ pc + w ≤ t) ∧ t ≤ len) :
+    ∀ (fuel pc : Nat) (starts targets S T : List Nat), checkLoop dec len fuel pc starts targets = .ok (S, T) →
+      (∀ t ∈ targets, (t < pc → t ∈ starts) ∧ t ≤ len) → ∀ t ∈ T, t ∈ S ∨ t = len := by
+  intro fuel
+  induction fuel with
+  | zero => intro pc starts targets S T h; simp [checkLoop] at h
+  | succ n ih =>
+    intro pc starts targets S T h hinv
+    unfold checkLoop at h
+    split at h
+    · rename_i hge
+      simp only [Except.ok.injEq, Prod.mk.injEq] at h
+      obtain ⟨h1, h2⟩ := h
+      subst h1; subst h2
+      intro t ht
+      obtain ⟨a, b⟩ := hinv t ht
+      by_cases hl : t < len
+      · left; exact a (by omega)
+      · right; omega
+    · rename_i hlt
+      split at h
+      · cases h
+      · rename_i w ts hd
+        split at h
+        · cases h
+        · rename_i hw
+          split at h
+          · cases h
+          · rename_i hint
+            apply ih (pc + w) (pc :: starts) (ts ++ targets) S T h
+            intro t ht
+            rcases List.mem_append.mp ht with ht | ht
+            · obtain ⟨a, b⟩ := hdec pc (pc :: starts) w ts hd t ht
+              exact ⟨fun hlt' => by rcases a with a | a; exact a; omega, b⟩
+            · obtain ⟨a, b⟩ := hinv t ht
+              refine ⟨fun hlt' => ?_, b⟩
+              by_cases h1 : t < pc
+              · exact List.mem_cons_of_mem _ (a h1)
+              · by_cases h2 : t = pc
+                · subst h2; exact List.mem_cons_self
+                · -- pc < t < pc + w: an interior hit, excluded
+                  exfalso
+                  apply hint
+                  unfold interiorHit
+                  rw [List.any_eq_true]
+                  refine ⟨t - pc - 1, List.mem_range.mpr (by omega), ?_⟩
+                  have : pc + 1 + (t - pc - 1) = t := by omega
+                  rw [this]
+                  exact List.contains_iff_mem.mpr (List.mem_append_right _ ht)
+
+/-- PARTIAL w.r.t. the property's last sentence: this is the CHECK side (accepted programs have only aligned branch
+    targets). That `eval` only ever moves to pc + width or to one of these targets is established by the harness monitor
+    ("every pc eval reaches is an instruction start recorded by check"), not by proof. -/
+theorem check_targets_aligned (tbl : Nat → Table) (lv minv mode : Nat) (prog S T : List Nat)
+    (h : staticCheck tbl lv minv mode prog = .ok (S, T)) : ∀ t ∈ T, t ∈ S ∨ t = prog.length := by
+  unfold staticCheck at h
+  split at h
+  · cases h
+  · rename_i v rest
+    split at h
+    · cases h
+    · split at h
+      · cases h
+      · exact checkLoop_aligned _ _ (fun pc starts w ts hd => decodeInstr_ok hd) _ _ _ _ S T h (by intro t ht; cases ht)
+
+-- non-vacuity on demoRows (opcode 1: size 1; 0xd4 0x01: size 2, application only, version 13)
+def demoRows2 : List Spec :=
+  demoRows ++ [{ mkRow 6 66 0 2 3 with size := 3, imms := [⟨"target", 2, "", ""⟩] },
+               { mkRow 7 212 1 13 2 with size := 2 }]
+-- `b +1` onto the sub-opcode byte of `0xd4 0x01` is rejected; `b +0` and `b +2` are accepted
+example : errOf (staticCheck (buildTables demoRows2) 14 0 modeApp [13, 66, 0, 1, 212, 1, 1]) = some .misaligned := by decide
+example : errOf (staticCheck (buildTables demoRows2) 14 0 modeApp [13, 66, 0, 0, 212, 1, 1]) = none := by decide
+example : errOf (staticCheck (buildTables demoRows2) 14 0 modeApp [13, 66, 0, 2, 212, 1, 1]) = none := by decide
+example : errOf (staticCheck (buildTables demoRows2) 14 0 modeSig [13, 66, 0, 2, 212, 1, 1]) = some .wrongmode := by decide
+
+end StaticCheck
 
 /-! ## Part C — complete finite checks over the generated table (today's tree; regenerated on every run) -/
 
@@ -511,6 +656,32 @@ theorem gen_table_complete (r : Spec) (hr : r ∈ opSpecs) (v : Nat) (hv : r.ver
   have wf := List.all_eq_true.mp rows_well_formed r hr
   simp only [Bool.and_eq_true, decide_eq_true_eq] at wf
   exact (table_version_complete opSpecs r v next hr wf.1.1.1 wf.1.2 hv (gen_no_mix r hr) hnext).2
+
+/-! ### instruction width is `Size`, not the immediates -/
+
+/-- bytes taken by one immediate of fixed width (byte, int8: 1; 2-byte label: 2); dynamic kinds have none -/
+def immWidth (k : Nat) : Option Nat := if k = 0 ∨ k = 1 then some 1 else if k = 2 then some 2 else none
+
+def immsWidth (s : Spec) : Option Nat :=
+  s.imms.foldl (fun acc im => match acc, immWidth im.kind with | some a, some w => some (a + w) | _, _ => none) (some 0)
+
+/-- table fact: a row has a fixed Size exactly when all its immediates have fixed width, a dynamic row has a check
+    function, and `Size = 1 + Σ immediate widths` holds exactly for single-byte opcodes — for the prefix+sub-opcode rows
+    Size is one more (the sub-opcode byte is described by NO immediate). So "no branch target inside an instruction" must be
+    (and in Model.OpCheck is) about Size. -/
+def sizeFactB (s : Spec) : Bool :=
+  match immsWidth s with
+  | none => s.size == 0 && s.hasCheck
+  | some w => s.size == 1 + w + (if s.sub ≠ 0 then 1 else 0) && s.size ≠ 0
+
+theorem size_vs_immediates : opSpecs.all sizeFactB = true := by decide +kernel
+
+/-- the rows whose Size differs from 1 + Σ immediate widths are exactly the sub-opcode rows (today: 0xd4 0x01..0x09) -/
+theorem size_exceptions :
+    (opSpecs.filter (fun s => s.size != 0 && immsWidth s != some (s.size - 1))).map (·.id)
+      = (opSpecs.filter (fun s => s.sub != 0)).map (·.id) := by decide +kernel
+
+example : ∃ s ∈ opSpecs, s.sub ≠ 0 ∧ s.size = 2 ∧ s.imms = [] := by decide +kernel
 
 /-! ### signature mode is stateless -/
 
